@@ -148,6 +148,8 @@ func checkC11(w *World, r *Report) {
 	}
 	r.floor("nested Render calls in template-loading functions", n1, 2)
 
+	checkResolvesThroughLoad(w, r, "R11.5", []string{"IncludeNode"}, "an include is answered from a per-node or per-context shortcut instead of the template the name denotes now")
+
 	// ---- R11.2 / R11.3 in IncludeNode.Render
 	inc := w.ssaFunc(w.method("IncludeNode", "Render"))
 	incCtx := inc.Params[2]
@@ -527,4 +529,148 @@ func isLoadError(v ssa.Value, loadFn *types.Func) bool {
 		return false
 	}
 	return walk(v)
+}
+
+// templateLoaders: functions that obtain another template — they call Engine.Load, or a helper of
+// the package that does and hands the *Template back.
+func (w *World) templateLoaders() map[*ssa.Function]bool {
+	if w.loadersMemo != nil {
+		return w.loadersMemo
+	}
+	loadFn := w.method("Engine", "Load")
+	loaders := map[*ssa.Function]bool{}
+	returnsTemplate := func(f *ssa.Function) bool {
+		res := f.Signature.Results()
+		for i := 0; i < res.Len(); i++ {
+			if isNamed(res.At(i).Type(), twigPath, "Template") {
+				return true
+			}
+		}
+		return false
+	}
+	for changed := true; changed; {
+		changed = false
+		for _, fn := range w.pkgFuncs() {
+			if loaders[fn] {
+				continue
+			}
+			instrsOf(fn, func(in ssa.Instruction) {
+				c, ok := in.(ssa.CallInstruction)
+				if !ok || loaders[fn] {
+					return
+				}
+				if calleeFunc(c) == loadFn {
+					loaders[fn] = true
+					changed = true
+					return
+				}
+				if g := c.Common().StaticCallee(); g != nil && loaders[g] && returnsTemplate(g) && g != fn {
+					loaders[fn] = true
+					changed = true
+				}
+			})
+		}
+	}
+	w.loadersMemo = loaders
+	return loaders
+}
+
+// checkResolvesThroughLoad: the Render method of a node that refers to another template reaches a
+// successful return only through the engine's Load (directly or through a loading helper): no
+// per-node or per-context shortcut decides which template is meant or whether it is (re)read —
+// the engine's cache, reload policy and name resolution see every render.
+func checkResolvesThroughLoad(w *World, r *Report, rule string, typeNames []string, consequence string) {
+	loaders := w.templateLoaders()
+	loadFn := w.method("Engine", "Load")
+	n := 0
+	for _, tn := range typeNames {
+		m := w.tryMethod(tn, "Render")
+		if m == nil {
+			continue
+		}
+		fn := w.ssaFunc(m)
+		n++
+		isLoad := func(in ssa.Instruction) bool {
+			c, ok := in.(ssa.CallInstruction)
+			if !ok {
+				return false
+			}
+			if _, isDefer := in.(*ssa.Defer); isDefer {
+				return false
+			}
+			if calleeFunc(c) == loadFn {
+				return true
+			}
+			g := c.Common().StaticCallee()
+			return g != nil && loaders[g]
+		}
+		construct := "every successful render resolves the template through Engine.Load"
+		bad := ""
+		instrsOf(fn, func(in ssa.Instruction) {
+			ret, ok := in.(*ssa.Return)
+			if !ok || bad != "" {
+				return
+			}
+			res := retResults(ret)
+			if len(res) == 0 || errorSurelyNonNil(res[len(res)-1], ret.Block()) {
+				return
+			}
+			if b, path := existsPathAvoiding(fn, in, isLoad, nil); b {
+				bad = w.posOf(ret.Pos()) + " (path " + strings.Join(path, " → ") + ")"
+			}
+		})
+		if bad == "" {
+			r.ok(rule, ssaName(fn), construct, w.posOf(fn.Pos()), "no nil-error return is reachable without a call that loads the template", true)
+		} else {
+			r.bad(rule, ssaName(fn), construct, w.posOf(fn.Pos()), "a successful return at "+bad+" is reachable without asking the engine for the template: "+consequence)
+		}
+	}
+	r.floor("template-referencing node renderers ("+strings.Join(typeNames, ", ")+")", n, len(typeNames))
+}
+
+// errorSurelyNonNil: the error value returned in block b cannot be nil: a freshly made error, the
+// result of a constructor that always returns one, or a value tested != nil on the way.
+func errorSurelyNonNil(v ssa.Value, b *ssa.BasicBlock) bool {
+	if isNilConst(v) {
+		return false
+	}
+	switch x := v.(type) {
+	case *ssa.MakeInterface:
+		return true
+	case *ssa.Call:
+		if g := x.Call.StaticCallee(); g != nil {
+			if g.String() == "fmt.Errorf" || g.String() == "errors.New" || alwaysNonNilError(g) {
+				return true
+			}
+		}
+	}
+	for d := b; d != nil; d = d.Idom() {
+		p := d.Idom()
+		if p == nil {
+			break
+		}
+		for i, sc := range p.Succs {
+			if sc != d || len(d.Preds) != 1 {
+				continue
+			}
+			for _, cf := range edgeFacts(p, i) {
+				bo, ok := cf.v.(*ssa.BinOp)
+				if !ok || (bo.Op != token.NEQ && bo.Op != token.EQL) {
+					continue
+				}
+				x, y := bo.X, bo.Y
+				if isNilConst(x) {
+					x, y = y, x
+				}
+				if !isNilConst(y) || !sameValue(x, v) {
+					continue
+				}
+				nonNil := (bo.Op == token.NEQ) == cf.truth
+				if nonNil {
+					return true
+				}
+			}
+		}
+	}
+	return false
 }
